@@ -342,6 +342,11 @@ func c02Body(r *run, rounds int, openOnly bool) {
 		tagW, minW := 1+g.intn(5), 16+g.intn(40)
 		slog.SetLevelOutputWidth(tagW)
 		slog.SetMessageMinimalWidth(minW)
+		if g.chance(1, 3) {
+			// values outside the documented ranges are refused and leave the configured widths in place
+			slog.SetLevelOutputWidth([]int{0, -1, 6, 100}[g.intn(4)])
+			slog.SetMessageMinimalWidth([]int{15, 0, -3}[g.intn(3)])
+		}
 		pkgIdx := g.intn(5) // 3, 4: no default logger in this round
 		var loggers []*c02Logger
 		for i, f := range []string{"j", "l", "c"} {
